@@ -427,6 +427,22 @@ def synthesize_trials(block: Block,
 
     return trialss
 
+def _with_hidden_factors(block: Block, sample: dict) -> dict:
+    """Weight desugaring adds, under a hidden name, a derived factor that repeats the
+    level names of the factor it replaces. A user-visible sample does not have that
+    column, but constraints and derived factors of the block refer to it."""
+    hidden = [f for f in block.design if isinstance(f.name, HiddenName) and f.name not in sample]
+    if not hidden:
+        return sample
+    sample = dict(sample)
+    for f in hidden:
+        source = cast(DerivedLevel, f.levels[0]).window.factors[0]
+        if source.name in sample:
+            sample[f.name] = [next((l.name for l in f.levels if cast(DerivedLevel, l).window.predicate(name)), "")
+                              for name in sample[source.name]]
+    return sample
+
+
 def sample_mismatch_experiment(block: Block, sample: dict) -> dict:
     """Given an experiment described with a :class:`.Block`, tests if :class:`list`
     of trials meets the factors, constraints and crossings of the described experiment.
@@ -451,6 +467,7 @@ def sample_mismatch_experiment(block: Block, sample: dict) -> dict:
         if len(sample[key]) != block.trials_per_sample():
             res['trial_count'] = [key, len(sample[key]), block.trials_per_sample()]
     if not res:
+        sample = _with_hidden_factors(block, sample)
         factor_errors = block.sample_mismatch_factors(sample)
         if factor_errors:
             res['factors'] = factor_errors
